@@ -513,7 +513,8 @@ fn run_op(w: &World, op: &IOp, pre: &Snap) -> Outcome {
         }
         IOp::Exec { code, variant, .. } => {
             let p = ExecParams { code_cid: code_cid(*code), constructor_params: ctor_params(w, *code, *variant) };
-            let value = if *code == Type::Miner as i32 && from_id == STORAGE_POWER_ACTOR_ID && *variant != 2 {
+            // a miner constructor needs its deposit; only the power actor and the funded accounts can pay it
+            let value = if *code == Type::Miner as i32 && (from_id == STORAGE_POWER_ACTOR_ID || w.accts.contains(&from_id)) && *variant != 2 {
                 fil_actors_integration_tests::util::create_miner_deposit_for_test(&w.v)
             } else {
                 zero.clone()
